@@ -54,6 +54,12 @@ def run_shard(args):
                 subprocess.run([exe], stdin=fi, stdout=fo, stderr=subprocess.DEVNULL, env=env)
         else:
             subprocess.run([exe, '-t', str(timeout), '-e', workdir, inp], stdout=fo, stderr=subprocess.DEVNULL, env=env)
+    # names may contain arbitrary bytes (character constants): keep the stream ASCII
+    with open(obs, 'rb') as f:
+        data = f.read()
+    if any(b > 127 for b in data):
+        with open(obs, 'wb') as f:
+            f.write(bytes(b if b < 128 else 63 for b in data))
     with open(obs) as fi, open(ver, 'w') as fo:
         subprocess.run([judge] + judge_args, stdin=fi, stdout=fo, stderr=subprocess.DEVNULL)
     return obs, ver
